@@ -182,6 +182,16 @@ pub fn drive_c14(a: &Args, out: &mut Out) {
                     let case = out.next_case();
                     out.emit(&textops_record::<str>(case, alg, "slices", "str", ovr, xs, ys));
                 }
+                // a user-defined DiffableStr type (ASCII-case-insensitive ==): the letters of the
+                // new text get a random case, so many tokens are equal without being identical
+                if ki < 3 && i % 2 == 0 {
+                    let yc: String = ys
+                        .chars()
+                        .map(|c| if c.is_ascii_alphabetic() && rng.chance(1, 2) { c.to_ascii_uppercase() } else { c })
+                        .collect();
+                    let case = out.next_case();
+                    out.emit(&textops_record::<crate::ci::Ci>(case, alg, kind, "ci", ovr, crate::ci::Ci::new(xs), crate::ci::Ci::new(&yc)));
+                }
             }
         }
     }
@@ -200,6 +210,14 @@ pub fn drive_c14(a: &Args, out: &mut Out) {
             if i % 3 == 0 {
                 let case = out.next_case();
                 out.emit(&textops_record::<[u8]>(case, alg, kind, "bytes", -1, x.as_bytes(), y.as_bytes()));
+            }
+            if i % 3 == 1 {
+                let yc: String = y
+                    .chars()
+                    .map(|c| if c.is_ascii_alphabetic() && rng.chance(1, 2) { c.to_ascii_uppercase() } else { c })
+                    .collect();
+                let case = out.next_case();
+                out.emit(&textops_record::<crate::ci::Ci>(case, alg, kind, "ci", -1, crate::ci::Ci::new(&x), crate::ci::Ci::new(&yc)));
             }
         }
     }
@@ -319,8 +337,14 @@ fn off<T: DiffableStr + ?Sized>(base: &T, s: &T) -> i64 {
 }
 
 fn remap_record<T: DiffableStr + ?Sized>(case: i64, alg: Algorithm, kind: &str, mode: &str, old: &T, new: &T) -> Value {
+    // every other case hands the remapper equal texts that live in another allocation (clones):
+    // the slices must then be substrings of those
+    let cloned = case % 2 == 1;
+    let (oc, nc) = (old.to_owned(), new.to_owned());
     let r = rec::guarded(|| {
+        use std::borrow::Borrow;
         let diff = make_diff(alg, kind, old, new)?;
+        let (old, new): (&T, &T) = if cloned { (oc.borrow(), nc.borrow()) } else { (old, new) };
         let remapper = TextDiffRemapper::from_text_diff(&diff, old, new);
         let mut per_op = vec![];
         for op in diff.ops() {
